@@ -50,7 +50,7 @@ def unOfTok : Tok → Option UnOp
 
 def reserved : List String :=
   ["for", "min", "max", "where", "true", "false", "in", "as", "define", "let", "solve",
-   "and", "or", "not", "implies", "iff", "xor"]
+   "and", "or", "not", "implies", "iff", "xor", "_"]
 
 def ratOfDigits (cs : List Char) : Rat := (cs.foldl (fun n c => 10 * n + (c.toNat - 48)) 0 : Nat)
 
@@ -216,7 +216,7 @@ partial def accesses (toks : List Tok) (acc : List E) : Option (List E × List T
 partial def iterDecls (toks : List Tok) (vs : List IterVar) (its : List E) : Option ((List IterVar × List E) × List Tok) := do
   let (v, r) ←
     match toks with
-    | .word v :: .word i :: r => if lowerW i == "in" then some (IterVar.single v, r) else none
+    | .word v :: .word i :: r => if lowerW i == "in" && v != "_" then some (IterVar.single v, r) else none
     | .lpar :: r =>
       match tupleVars r [] with
       | some (ns, .word i :: r') => if lowerW i == "in" then some (IterVar.tuple ns, r') else none
@@ -249,6 +249,7 @@ partial def product (toks : List Tok) : Option (E × List Tok) :=
     let r' ← skipArray r
     pure (arrayE, r')
   | .word w :: .lbrack :: r => do
+    if w == "_" then none
     let (idx, r') ← accesses (.lbrack :: r) []
     pure (accessE w idx, r')
   | .word w :: rest =>
